@@ -107,7 +107,7 @@ public:
    std::map<std::string, std::string> snapBefore;   // isolation: tree snapshot at command begin
    std::map<std::string, std::string> othersBefore; // isolation: other sessions' observable state at command begin
    std::vector<std::string> departedRoots;    // roots of sessions that have left (must never reappear)
-   int witnessConn = -1; int witnessPingTag = 0; int64_t witnessPingSentAtStep = -1; int witnessOutstanding = -1;
+   int hostileConn = -1; int witnessConn = -1; int witnessPingTag = 0; int64_t witnessPingSentAtStep = -1; int witnessOutstanding = -1;
    bool inQuiesce = false;
    static ServerSim * s_cur;
 
@@ -160,7 +160,7 @@ public:
       SimSession * ss = new SimSession(this, idx); c->session.SetRef(ss);
       if (server->AddNewSession(c->session, ConstSocketRef(new Socket(c->fd, false))).IsError()) Fail("harness", "AddNewSession failed");
       c->sid = ss->GetSessionID(); c->root = "/" + host + "/" + std::string(ss->GetSessionIDString()());
-      c->up = c->everUp = true;
+      c->up = c->everUp = true; c->hostile = (idx == hostileConn); c->witness = (idx == witnessConn);
       c->gw.reset(new MessageIOGateway); c->gw->SetDataIO(DataIORef(new SimDataIO(&c->s2c, &c->c2s)));
       th.s("connect"); th.u((uint64_t) idx); th.u(c->sid);
       st.inc("sessions_connected");
@@ -190,6 +190,7 @@ public:
       std::vector<Conn *> gone;
       for (auto & cp : conns) {Conn * c = cp.get(); if ((c)&&(c->up)&&(c->session())&&(c->session()->IsAttachedToServer() == false)) {c->up = false; gone.push_back(c);}}   // all of this step's departures first
       for (Conn * c : gone) NoteDeparture(c);
+      if ((witnessConn >= 0)&&(UpC(witnessConn))) ClientRead(UpC(witnessConn));   // the witness is never slow: it reads after every server step
       if ((orc.liveness)&&(witnessOutstanding >= 0)&&(witnessPingSentAtStep >= 0)&&((int64_t) steps - witnessPingSentAtStep > 64))
          Fail("witness_ping_unanswered", "the witness client's ping (tag " + I(witnessOutstanding) + ") was not answered within 64 server steps of its delivery; last hostile command: " + lastHostileDesc);
    }
@@ -225,7 +226,15 @@ public:
       cmdCopies.push_back(GetMessageFromPool(*msg()));   // the handler may move fields out of the command (SETPARAMETERS does): the model reads this copy
       if (topLevel) c->cmdsProcessed++; else st.inc("p.batch_subcommand");
       char wb[64]; snprintf(wb, sizeof(wb), "conn %d what=%u (%u fields)", connIdx, msg()->what, msg()->GetNumNames()); lastCmdDesc = wb;
-      if (c->hostile) lastHostileDesc = lastCmdDesc;
+      if (c->hostile)
+      {
+         lastHostileDesc = lastCmdDesc; st.inc("p.hostile_cmds_processed");
+         const uint32 hw = msg()->what;
+         if ((hw >= (uint32) BEGIN_PR_COMMANDS)&&(hw <= (uint32) END_PR_COMMANDS)) st.inc("p.handler_reached_" + U(hw - (uint32) BEGIN_PR_COMMANDS)); else st.inc("p.handler_reached_routed");
+         const uint32 ql = Sess(c)->OutQueueLen(); st.max("max.hostile_output_queue", ql);
+         if ((hw == PR_COMMAND_JETTISONRESULTS)&&(ql >= 2)) {st.inc("p.jettison_with_queue_ge2"); if (msg()->HasName(PR_NAME_FILTERS)) st.inc("p.jettison_filtered_with_queue_ge2");}
+         if ((hw == PR_COMMAND_BATCH)&&(cmdDepth >= 99)) st.inc("p.batch_depth_ge100");
+      }
       th.s("cmd"); th.u((uint64_t) connIdx); th.u(msg()->what);
       st.inc("cmds_processed");
       // a partially received command must never be processed: the k-th processed command must have been completely delivered
@@ -248,7 +257,7 @@ public:
       Conn * c = C(connIdx); currentCmdConn = -1; if ((c == NULL)||(msg() == NULL)) return;
       if (cmdDepth > 0) cmdDepth--;
       MessageRef asReceived; if (!cmdCopies.empty()) {asReceived = cmdCopies.back(); cmdCopies.pop_back();}
-      if ((msg()->what != PR_COMMAND_BATCH)&&(asReceived())) ApplyToServerModel(c, *asReceived(), 0);   // a BATCH's sub-commands were applied one by one as they were processed
+      if ((msg()->what != PR_COMMAND_BATCH)&&(asReceived())&&(!c->hostile)) ApplyToServerModel(c, *asReceived(), 0);   // a BATCH's sub-commands were applied one by one as they were processed
       if (HasAliases(c->serverSubs)) {c->everAliased = true; st.inc("p.aliased_subscriptions");}
       if (orc.marks) CheckMarks("after command");
       if (orc.index) CheckIndexWellFormed();
@@ -298,6 +307,7 @@ public:
    void ClientGot(Conn * c, const MessageRef & m)
    {
       c->msgsReceived++; st.inc("msgs_to_clients");
+      if (c->hostile) return;
       th.s("rx"); th.u((uint64_t) c->idx); th.u(m()->what);
       switch(m()->what)
       {
@@ -436,8 +446,8 @@ public:
       st.inc("marks_checks");
       WalkTree(s->Root(), [&](DataNode & n, const std::string & p) {
          std::map<uint32, uint32> exp, got;
-         for (auto & cp : conns) if ((cp)&&(cp->up)) {uint32 cnt = 0; for (auto & sp : cp->serverSubs) if (match::PathMatch(sp.first, p)) cnt++; if (cnt) exp[cp->sid] = cnt;}
-         for (ConstHashtableIterator<uint32, uint32> it(n.GetSubscribers()); it.HasData(); it++) got[it.GetKey()] = it.GetValue();
+         for (auto & cp : conns) if ((cp)&&(cp->up)&&(!cp->hostile)) {uint32 cnt = 0; for (auto & sp : cp->serverSubs) if (match::PathMatch(sp.first, p)) cnt++; if (cnt) exp[cp->sid] = cnt;}
+         for (ConstHashtableIterator<uint32, uint32> it(n.GetSubscribers()); it.HasData(); it++) {bool hostileSid = false; for (auto & cp : conns) if ((cp)&&(cp->hostile)&&(cp->up)&&(cp->sid == it.GetKey())) hostileSid = true; if (!hostileSid) got[it.GetKey()] = it.GetValue();}   // a hostile session's own subscriptions are not modelled
          if (exp != got)
          {
             std::string d = std::string(when) + ": subscriber marks of node " + p + " are {"; for (auto & e : got) d += U(e.first) + ":" + U(e.second) + " ";
@@ -632,6 +642,8 @@ public:
       {
          Conn * c = cp.get(); if ((c == NULL)||(!c->up)) continue;
          if (c->pending.size() > 0) continue;   // an (un)subscribe of this client was cut off or is otherwise unresolved: its coverage is undefined
+         if (c->hostile) continue;               // the hostile client's own view is not modelled
+         auto hostileOwned = [&](const std::string & p) {for (auto & hp : conns) if ((hp)&&(hp->hostile)&&((p == hp->root)||(p.compare(0, hp->root.size()+1, hp->root + "/") == 0))) return true; return false;};
          if (orc.mirror)
          {
             // expected mirror: nodes of OTHER sessions (own too under !Self) that some current subscription matches (pattern by the independent matcher, filter by the independent evaluator)
@@ -640,11 +652,12 @@ public:
             {
                const bool own = (t.first == c->root)||(t.first.compare(0, c->root.size()+1, c->root + "/") == 0);
                if ((own)&&(!c->self)) continue;
+               if (hostileOwned(t.first)) continue;   // a hostile owner may write and remove quietly: its nodes are "don't care" for mirrors
                bool m = false; for (auto & sp : c->clientSubs) if ((match::PathMatch(sp.first, t.first))&&(sp.second.filt.EvalMsg(payloads[t.first]))) m = true;
                if (m) exp[t.first] = t.second;
             }
             std::map<std::string, std::string> got;
-            for (auto & t : c->mirror) {const bool own = (t.first == c->root)||(t.first.compare(0, c->root.size()+1, c->root + "/") == 0); if ((own)&&(!c->self)) continue; got[t.first] = t.second;}
+            for (auto & t : c->mirror) {const bool own = (t.first == c->root)||(t.first.compare(0, c->root.size()+1, c->root + "/") == 0); if ((own)&&(!c->self)) continue; if (hostileOwned(t.first)) continue; got[t.first] = t.second;}
             // deliberate, narrow relaxation: entries a quiet subscription was never told about are not required (completeness only for nodes written after it)
             if (exp != got)
             {
